@@ -27,6 +27,10 @@ EXTRA = {
     'C10-header-limit-skipped-when-terminated': ['C19'],
     'C19-proxy-header-limit-skipped': ['C10'],
     'C06-send-lock-only-around-compress': ['C11'],
+    'C08-close-validator-shared': ['C17'],
+    'C01-validator-shared-class-attribute': ['C17'],
+    'C04-validated-first-byte-memo-shared': ['C17'],
+    'C05-validator-mutable-default-argument': ['C17'],
     'C07-echo-bypasses-close-no-sent-time': ['C09', 'C15'],
     'C09-close-timeout-falsy-zero': ['C15', 'C07'],
     'C15-close-timeout-falsy-zero': ['C07'],
